@@ -243,6 +243,17 @@ def r4(ctx):
             a_out = Slicer(ctx.w).atoms(u, outer[0]["args"][1])
             unspec_out = any("UNSPECIFIED" in a for a in a_out)
             ok = not unspec_out and any(True for _ in u.calls(re.compile(r"^std::option::Option::or_else$")))
+        elif len(outer) == 2 and not inner:
+            # `match first_bound(k, &exact) { Some(fd) => Some(fd), None => first_bound(k, &wildcard) }`: the wildcard lookup hangs on the
+            # None edge of the test of the exact lookup's result
+            ex = [(bb, t) for bb, t in fb_calls if not any("UNSPECIFIED" in a for a in Slicer(ctx.w).atoms(u, t["args"][1]))]
+            wc = [(bb, t) for bb, t in fb_calls if any("UNSPECIFIED" in a for a in Slicer(ctx.w).atoms(u, t["args"][1]))]
+            if len(ex) == 1 and len(wc) == 1:
+                nones = []
+                for sbb, m, els, adt, pl in variant_edges(u, lambda p: True):
+                    if adt == "std::option::Option" and u.dominated_by_block(sbb, ex[0][0]) and not u.dominated_by_block(sbb, wc[0][0]):
+                        nones.append(m.get("None") or els)
+                ok = bool(nones) and u.dominated_by_any(wc[0][0], edges=nones)
         ctx.inst(R, "udp-deliver:exact-before-wildcard", ok, u.span, "exact binding preferred, wildcard only as fallback (or_else)" if ok else
                  "UDP demux does not prefer the exact binding over the wildcard")
         pushes = [(bb, t) for bb, t in u.calls(re.compile(r"^std::collections::VecDeque::push_back$")) if _on_field(u, t["args"][0], "turmoil_net::kernel::socket::Socket::recv_queue")]
@@ -272,6 +283,14 @@ def r4(ctx):
                 for sbb, te, fe, o in guards_on(u, lambda o: o["k"] == "call" and re.search(r"Option::is_some_and$", o["t"]["f"])):
                     at = Slicer(ctx.w).atoms(u, o["t"]["args"][0])
                     ne_in = any(True for cid in closure_args(u, o["t"]) for fb in ctx.w.family(cid) for _ in fb.calls(re.compile(r"PartialEq>::ne$|^std::cmp::PartialEq::ne$")))
+                    if not ne_in:
+                        # `|peer| !same_sender(peer, &from)`: equality computed (by an inlined helper) and negated
+                        for cid in closure_args(u, o["t"]):
+                            for fb in ctx.w.family(cid):
+                                has_eq = any(True for _ in fb.calls(re.compile(r"Addr as std::cmp::PartialEq>::eq$|PartialEq>::eq$")))
+                                has_not = any(i2 != "term" and s3["r"]["k"] == "un" and s3["r"]["op"] == "Not" for _, i2, s3 in fb.all_stmts())
+                                if has_eq and has_not:
+                                    ne_in = True
                     if "field:turmoil_net::kernel::socket::Socket::peer" in at and ne_in and fe and u.dominated_by_any(bb, edges=fe):
                         okp = True
             ctx.inst(R, "udp-deliver:connected-peer-filter", okp, t["s"], "a connected socket only receives from its peer" if okp else
